@@ -377,6 +377,7 @@ func ruleNONCE(c *Checker, rule string, enc, dec, initKey, rot *ssa.Function, fN
 		c.decide(nReset == 1, rule, "InitializeKey|nonce = 0", initKey.Pos(), "a new key starts at nonce 0, unconditionally",
 			"InitializeKey does not reset the nonce: after a rotation the two ends continue from 1000 - harmless only while both do the same; with the initial keys it makes the first record start wherever the handshake cipher stopped")
 	}
+	ruleKeySchedule(c, rule)
 	// Seal/Open call sites
 	for _, fn := range w.Funcs {
 		if w.pkgShort(fn) != targetMbox {
@@ -1132,4 +1133,35 @@ func sameParam(v ssa.Value, p ssa.Value) bool {
 		}
 	}
 	return n == 1
+}
+
+// ruleKeySchedule: who may (re)key a cipher state: InitializeKey is called from the key schedule
+// only - InitializeKeyWithSalt (split), rotateKey, mixKey, InitializeSymmetric. A state that keys
+// itself on first use (with whatever secretKey holds - all zero after a failed handshake) turns
+// "no session keys" into "a key everybody knows".
+func ruleKeySchedule(c *Checker, rule string) {
+	w := c.w
+	initKey := mboxFunc(c, "(*mailbox.cipherState).InitializeKey")
+	if initKey == nil {
+		return
+	}
+	{
+		allowed := map[string]bool{"InitializeKeyWithSalt": true, "rotateKey": true, "mixKey": true, "InitializeSymmetric": true}
+		sites, _ := w.CallersOf(initKey) // cipherState is unexported: all callers are in this package
+		bad := ""
+		for _, sx := range sites {
+			if strings.HasSuffix(w.Fset.Position(instrPos(sx.Instr)).Filename, "_test.go") {
+				continue
+			}
+			top := sx.Caller
+			for top.Parent() != nil {
+				top = top.Parent()
+			}
+			if !allowed[top.Name()] {
+				bad = fnName(sx.Caller) + " at " + w.pos(instrPos(sx.Instr))
+			}
+		}
+		c.decide(bad == "" && len(sites) >= 4, rule, "InitializeKey|called from the key schedule only", initKey.Pos(), fmt.Sprintf("%d call sites: InitializeKeyWithSalt, rotateKey, mixKey, InitializeSymmetric", len(sites)),
+			"InitializeKey is also called from "+bad+": a cipher state can be (re)keyed outside the key schedule - with a stale or all-zero key, and with the nonce reset under a key that was already used")
+	}
 }
